@@ -107,7 +107,7 @@ def run(ctx):
     lock_counter_range(ctx, "T7")
     ctx.rule("T8", "the watchdog's error response reaches the master whose request timed out: the arbiters keep the grant while any "
                    "channel of the target is valid, the response channels (b / r) included -- the locks do not count a request whose "
-                   "address beat was never accepted", min_sites=4)
+                   "address beat was never accepted -- and hand b / r to the master granted by the round-robin of that direction", min_sites=6)
     from .c08 import arbiter_grant_freeze
     arbiter_grant_freeze(ctx, "T8")
     ctx.rule("T3", "Timeout bodies: wait condition, forced termination with error data, RESPOND exits only on the response "
